@@ -455,12 +455,13 @@ class ChainMultiallelic(Chain):
             opts = _read_options(len(kinds), psidx)
             for R in range(1, rmax + 1):
                 for reads in itertools.combinations_with_replacement(opts, R):
+                    if len(kinds) >= 3 and not any(kinds[i] == "b" for r in reads for i in r):
+                        continue  # no read can be tagged (V <= 2 keeps such read sets)
                     add(kinds, psidx, reads)
 
         if tier == "quick":
             # the big ones first (job balance)
             add("bmm", (0, 0, 0), [[0, 1, 2]])
-            add("mbm", (0, 0, 0), [[0, 1], [1, 2]])
             add("bbm", (0, 1, 1), [[0], [1, 2]])
             add("bmb", (0, 0, 1), [[0, 1], [2]])
             for kinds in ("bm", "mb"):
@@ -483,7 +484,7 @@ class ChainMultiallelic(Chain):
     def bounds(self, tier):
         sh = self.shapes(tier)
         return ("%d shapes: V <= %d diploid records, each with one ('b') or two ('m') ALT alleles [%s], in <= 2 phase sets, R <= %d error-free reads each covering a non-empty subset of one phase set's variants "
-                "(quick: every multiset of <= 2 reads for bm/mb, selected read sets for V = 3; thorough: every multiset of <= 2 reads for V = 3, <= 3 for V = 2); "
+                "(quick: every multiset of <= 2 reads for bm/mb, selected read sets for V = 3; thorough: every multiset of <= 2 reads of which one covers a biallelic record for V = 3, every multiset of <= 3 reads for V = 2, one V = 4 shape); "
                 "symbolic: original phased genotype of every record (2 orders for 'b'; 0|1, 1|0, 0|2, 2|0, 1|2, 2|1 for 'm'), haplotype of every read, every quality in 1..3, which records are unphased in the second input"
                 % (len(sh), max(s["V"] for s in sh), ", ".join(sorted({s["kinds"] for s in sh})), max(len(s["reads"]) for s in sh)))
 
